@@ -1,5 +1,7 @@
 package smt
 
+import "sort"
+
 // Unit propagation at the term level: top-level facts of the form `atom`, `not atom`
 // and `t = literal` are substituted into the other assertions. Sound (equivalence
 // preserving) and it lets the constructors fold case splits such as
@@ -74,8 +76,42 @@ func flattenAnd(as []*Term) []*Term {
 	return out
 }
 
+// hoistCommon: from (c => A) and (not c => B), every conjunct common to A and B holds unconditionally.
+func hoistCommon(as []*Term) []*Term {
+	byCond := map[*Term][]*Term{}
+	for _, a := range as {
+		if a.Op == "=>" {
+			byCond[a.Args[0]] = append(byCond[a.Args[0]], a.Args[1])
+		}
+	}
+	conj := func(ts []*Term) map[*Term]bool {
+		m := map[*Term]bool{}
+		for _, t := range flattenAnd(ts) {
+			m[t] = true
+		}
+		return m
+	}
+	seen := map[*Term]bool{}
+	var hoisted []*Term
+	for c, pos := range byCond {
+		neg, ok := byCond[Not(c)]
+		if !ok || seen[c] {
+			continue
+		}
+		seen[c], seen[Not(c)] = true, true
+		a, b := conj(pos), conj(neg)
+		for t := range a {
+			if b[t] {
+				hoisted = append(hoisted, t)
+			}
+		}
+	}
+	sort.Slice(hoisted, func(i, j int) bool { return hoisted[i].id < hoisted[j].id })
+	return append(as, hoisted...)
+}
+
 func Propagate(as []*Term) []*Term {
-	cur := flattenAnd(as)
+	cur := hoistCommon(flattenAnd(as))
 	for iter := 0; iter < 8; iter++ {
 		facts := map[*Term]*Term{}
 		unit := map[*Term]*Term{} // unit assertion -> the key it contributes to facts
